@@ -28,31 +28,32 @@
      wf_st d st         the invariant of solve_impl's state: iterate vectors have lengths n, p, m, n_lb, n_ub; KKT state
                         shaped; residual vectors shaped (or not yet computed: iter = 0)
      run_sops sv h      run the history h of updates and solves from sv (Err as soon as a call is rejected)
+     spc                the sparse_pc parameter of API.v (which Ruiz variant the model follows); all statements hold for both
      sane_consts K      0 < k_min_scaling <= 1 <= k_max_scaling (holds for the translated constants: C11_ex_sane_consts) *)
 From PIQP Require Import Base Data Bounds PrecondDense KKTDense IPM API PrecondProofs Shapes ShapesProofs.
 From PIQP.gen Require Import Consts.
 
 (* setup allocates the canonical shape *)
 Theorem C11_setup_shape :
-  forall (K : Consts) (ident : bool) (junk : F) (St : Settings) (n p m : nat) (B : Blocks) (sv : Solver),
-  sane_consts K -> setup_blocks_ok n p m B -> setup K ident junk St n p m B = Ok sv ->
+  forall (K : Consts) (ident spc : bool) (junk : F) (St : Settings) (n p m : nat) (B : Blocks) (sv : Solver),
+  sane_consts K -> setup_blocks_ok n p m B -> setup K ident spc junk St n p m B = Ok sv ->
   shape_of sv = canon_shape n p m /\ fits sv.
 Proof. exact setup_shape. Qed.
 Print Assumptions C11_setup_shape.
 
 (* ... and establishes the invariant *)
 Theorem C11_setup_wf :
-  forall (K : Consts) (ident : bool) (junk : F) (St : Settings) (n p m : nat) (B : Blocks) (sv : Solver),
-  sane_consts K -> setup_blocks_ok n p m B -> setup K ident junk St n p m B = Ok sv ->
+  forall (K : Consts) (ident spc : bool) (junk : F) (St : Settings) (n p m : nat) (B : Blocks) (sv : Solver),
+  sane_consts K -> setup_blocks_ok n p m B -> setup K ident spc junk St n p m B = Ok sv ->
   wf_solver sv /\ d_n (sv_data sv) = n /\ d_p (sv_data sv) = p /\ d_m (sv_data sv) = m.
 Proof. exact setup_wf. Qed.
 Print Assumptions C11_setup_wf.
 
 (* every accepted update keeps every shape: any block subset, both reuse values, bound-pattern changes *)
 Theorem C11_update_shape :
-  forall (K : Consts) (sv : Solver) (B : Blocks) (reuse : bool) (sv' : Solver),
+  forall (K : Consts) (spc : bool) (sv : Solver) (B : Blocks) (reuse : bool) (sv' : Solver),
   sane_consts K -> wf_solver sv -> blocks_ok (d_n (sv_data sv)) (d_p (sv_data sv)) (d_m (sv_data sv)) B ->
-  update K sv B reuse = Ok sv' -> shape_of sv' = shape_of sv /\ fits sv' /\ wf_solver sv'.
+  update K spc sv B reuse = Ok sv' -> shape_of sv' = shape_of sv /\ fits sv' /\ wf_solver sv'.
 Proof. exact update_shape. Qed.
 Print Assumptions C11_update_shape.
 
@@ -82,9 +83,9 @@ Print Assumptions C11_loop_pass_invariant.
 
 (* T1 shapes_invariant: all histories *)
 Theorem C11_shapes_invariant :
-  forall (K : Consts) (ident : bool) (junk : F) (cp_bits : Z) (St : Settings) (n p m : nat) (B : Blocks) (sv0 : Solver),
-  sane_consts K -> setup_blocks_ok n p m B -> setup K ident junk St n p m B = Ok sv0 ->
-  forall (h : list SOp) (sv : Solver), Forall (sop_ok n p m) h -> run_sops K junk cp_bits sv0 h = Ok sv ->
+  forall (K : Consts) (ident spc : bool) (junk : F) (cp_bits : Z) (St : Settings) (n p m : nat) (B : Blocks) (sv0 : Solver),
+  sane_consts K -> setup_blocks_ok n p m B -> setup K ident spc junk St n p m B = Ok sv0 ->
+  forall (h : list SOp) (sv : Solver), Forall (sop_ok n p m) h -> run_sops K spc junk cp_bits sv0 h = Ok sv ->
   shape_of sv = shape_of sv0 /\ shape_of sv = canon_shape n p m /\ fits sv.
 Proof. exact shapes_invariant. Qed.
 Print Assumptions C11_shapes_invariant.
@@ -118,16 +119,18 @@ Proof.
   split; [split|]; repeat split; cbn; try reflexivity; try discriminate; repeat constructor.
 Qed.
 
+(* solves with the fault oracle "every factorisation fails" stop with NUMERICS after max_factor_retires retries: the
+   cheapest complete pass through solve() in exact arithmetic (the independent checker coqchk re-evaluates this file
+   without the VM, so the examples are kept small) *)
 Definition C11_ex_history : list SOp :=
-  [SSolve (fun _ => false); SUpdate C11_ex_U false; SSolve (fun k => Nat.ltb k 2); SUpdate C11_ex_U true; SSolve (fun _ => true)].
+  [SSolve (fun _ => true); SUpdate C11_ex_U false; SSolve (fun _ => true); SUpdate C11_ex_U true; SSolve (fun _ => true)].
 
-(* the history is accepted call by call (so the theorem speaks about a real run: a solve, an update that changes the bound
-   pattern with a fresh preconditioner, a solve with two injected factorisation failures, an update with reuse, and a solve
-   that ends in NUMERICS), n_lb really changes, and the shapes are those of setup *)
+(* the history is accepted call by call (so the theorem speaks about a real run: an update that changes the bound pattern
+   with a fresh preconditioner, an update with reuse, solves that end in NUMERICS), n_lb really changes 1 -> 2 *)
 Example C11_ex_run :
-  match setup consts false 0%Qc C11_ex_S 2 1 1 C11_ex_B with
+  match setup consts false false 0%Qc C11_ex_S 2 1 1 C11_ex_B with
   | Ok sv0 =>
-      match run_sops consts 0%Qc 8%Z sv0 C11_ex_history with
+      match run_sops consts false 0%Qc 8%Z sv0 C11_ex_history with
       | Ok sv => (Nat.eqb (d_nlb (sv_data sv0)) 1 && Nat.eqb (d_nlb (sv_data sv)) 2)%bool
       | Err _ => false
       end
@@ -136,10 +139,25 @@ Example C11_ex_run :
 Proof. vm_compute. reflexivity. Qed.
 
 Example C11_ex_shapes :
-  forall sv0 sv, setup consts false 0%Qc C11_ex_S 2 1 1 C11_ex_B = Ok sv0 ->
-  run_sops consts 0%Qc 8%Z sv0 C11_ex_history = Ok sv ->
+  forall sv0 sv, setup consts false false 0%Qc C11_ex_S 2 1 1 C11_ex_B = Ok sv0 ->
+  run_sops consts false 0%Qc 8%Z sv0 C11_ex_history = Ok sv ->
   shape_of sv = shape_of sv0 /\ shape_of sv = canon_shape 2 1 1 /\ fits sv.
 Proof.
   intros sv0 sv H0 H. eapply C11_shapes_invariant; [exact C11_ex_sane_consts|exact (proj1 C11_ex_blocks_ok)|exact H0| |exact H].
   repeat constructor; exact (proj2 C11_ex_blocks_ok).
 Qed.
+
+(* a complete interior-point solve (no injected faults, both loop branches are covered by the theorems; here the
+   unconstrained one): n = 1, P = 2, c = -2, one iteration *)
+Definition C11_ex_B1 : Blocks :=
+  {| b_P := Some [[q 2]]; b_c := Some [q (-2)]; b_A := None; b_b := None; b_G := None; b_h := None; b_lb := None; b_ub := None |}.
+Example C11_ex_full_solve :
+  match setup consts true false 0%Qc C11_ex_S 1 0 0 C11_ex_B1 with
+  | Ok sv0 =>
+      match solve consts 0%Qc 8%Z (fun _ => false) sv0 with
+      | Ok (sv, st) => match st with NUMERICS => false | _ => Nat.eqb (length (o_x (sv_out sv))) 1 end
+      | Err _ => false
+      end
+  | Err _ => false
+  end = true.
+Proof. vm_compute. reflexivity. Qed.
